@@ -22,7 +22,9 @@ IsRef(e) == e.term.f = "ref"
 \*   D_C07_reloid_ref               v RELATIVE-OID ::= ref : emitted as `OBJECT IDENTIFIER(REF)`, which is not Rust
 Class(e) ==
     CASE e.pos = "assign" /\ e.ty.k = "ENUMERATED" /\ e.ty.inline -> "D_C07_inline_enumerated_value"
-      [] e.ty.k \in {"SEQUENCE", "SEQOF"} -> "D_C07_constructed_value"
+      \* ... recognisable by what was emitted: an OID constructor or wrappers the evaluator cannot see through; a value that
+      \* does evaluate to a SEQUENCE / SET / SEQUENCE OF value and is a different one is not this finding
+      [] e.ty.k \in {"SEQUENCE", "SET", "SEQOF"} /\ e.obs.k \in {"unknown", "oid"} -> "D_C07_constructed_value"
       [] e.fam = "reloid" /\ e.pos = "assign" /\ IsRef(e) -> "D_C07_reloid_ref"
       [] OTHER -> "none"
 
